@@ -70,7 +70,8 @@ Theorem C14_missing :
 Proof. exact eos_missing. Qed.
 Print Assumptions C14_missing.
 
-(* the cell comparison is an equivalence relation *)
+(* on the modelled domain of cells (Model/PyEq.v: int, bool, float, str, naive timestamp, the four
+   missing values) the cell comparison is an equivalence relation *)
 Theorem C14_cell_equivalence :
   (forall a, equal_or_same a a = true) /\
   (forall a b, equal_or_same a b = equal_or_same b a) /\
@@ -91,7 +92,8 @@ Theorem C14_not_a_table :
 Proof. exact method_not_table. Qed.
 Print Assumptions C14_not_a_table.
 
-(* on objects the method is reflexive and symmetric, whatever the classes of the two tables *)
+(* on objects the method is reflexive and symmetric, whatever the classes of the two tables (subclasses
+   that do not override equals) *)
 Theorem C14_method_refl :
   forall (c o : N) (t : bool) (a : table pyval), method_equals equal_or_same (OTable c o t a) (OTable c o t a) = true.
 Proof. exact method_refl. Qed.
@@ -113,7 +115,8 @@ Print Assumptions C14_subclass_unrepaired_refuted.
 
 (* the cell comparison as it stood before the second repair (fix: commit in /repo): a pd.NA cell made
    a == b raise inside Table.equals, so a table holding pd.NA did not even equal itself; wherever the
-   old code answered, the repaired code answers the same *)
+   old code answered (on python-number cells; numpy scalars are the third repair), the repaired code
+   answers the same *)
 Theorem C14_pdNA_unrepaired_refuted :
   equal_or_same_unrepaired PNA PNA = None /\ equal_or_same PNA PNA = true.
 Proof. exact unrepaired_pdNA. Qed.
